@@ -510,7 +510,7 @@ pub fn run(run: &Run) {
         1 => (0u8..8).prop_map(EvOp::Forget),
     ];
     let evcase = (1u32..=6, 0u16..=1000, prop::collection::vec(evop, 1..len)).prop_map(|(max_failures, threshold_milli, ops)| EvCase { max_failures, threshold_milli, ops });
-    run.prop("eviction", run.tier.pick(1500, 30_000), sh, evcase, run_eviction);
+    run.prop("eviction", run.tier.pick(22500, 300000), sh, evcase, run_eviction);
 
     let rtop = prop_oneof![
         6 => (0u8..40).prop_map(RtOp::Add),
@@ -519,14 +519,14 @@ pub fn run(run: &Run) {
         3 => (any::<u8>(), 0u8..=64).prop_map(|(k, n)| RtOp::Lookup(k, n)),
     ];
     let rtcase = prop::collection::vec(rtop, 1..run.tier.pick(60, 400)).prop_map(|ops| RtCase { ops });
-    run.prop("routing", run.tier.pick(600, 10_000), sh, rtcase, run_routing);
+    run.prop("routing", run.tier.pick(9000, 100000), sh, rtcase, run_routing);
 
     let cand = (prop_oneof![1 => Just(0u8), 2 => Just(1u8), 3 => Just(2u8)], any::<u8>(), any::<u8>(), sel_trust()).prop_map(|(shape, a, b, trust)| SelCand { shape, a, b, trust });
     let selcase = (any::<u8>(), prop::bool::weighted(0.3), prop::collection::vec(cand, 0..64), 0u8..=70, 0u8..4, 0u16..=1000, 0u16..=1000, any::<bool>()).prop_map(|(key_byte, key_zero, cands, count, cfg, w_milli, thr_milli, exclude)| SelCase { key_byte, key_zero, cands, count, cfg, w_milli, thr_milli, exclude });
-    run.prop("selector", run.tier.pick(3000, 60_000), sh, selcase, run_selector);
+    run.prop("selector", run.tier.pick(45000, 600000), sh, selcase, run_selector);
 
     let dis = (prop::collection::vec((0u8..12, any::<u8>()), 0..60), any::<u8>()).prop_map(|(ids, key)| DisCase { ids, key });
-    run.prop("disabled", run.tier.pick(800, 15_000), sh, dis, run_disabled);
+    run.prop("disabled", run.tier.pick(12000, 150000), sh, dis, run_disabled);
 }
 
 pub fn replay(run: &Run, sub: &str, case: &Value) -> Option<bool> {
